@@ -236,6 +236,15 @@ def check_case(ctx, case):
     rng = ctx.sub_rng('c20T', spec, *[k for k, _ in pairs][:3])
     temps = [rr[0], rr[1], rng.uniform(*rr)]
     compared = 0
+    if len(repr(case['mapping'])) % 3 == 0:
+        # copies / unpickled copies of the estimate report the same errors
+        from vmon.core import clones
+        est_c = lib.Estimate(dict(mapping), 'thermochem')
+        clones.agreement(ctx, case, est_c, [
+            ('%s(%r)' % (se, T_), lambda e_, se=se, T_=T_: repr(float(
+                getattr(e_, se)(T_)))) for se, _ in SE
+            for T_ in (temps[0], temps[2])], 'estimate with uncertainty',
+            'before' if len(pairs) % 2 else 'after')
     for T in temps:
         vals = se_values(ctx, case, est, T)
         if vals is None:
